@@ -6,6 +6,7 @@ import (
 	"encoding/xml"
 	"errors"
 	"fmt"
+	"math"
 	"mime/multipart"
 	"net/http"
 	"net/http/httptest"
@@ -74,12 +75,15 @@ func (c18Configured) ConfigValidation(v *validate.Validation) {
 	v.StringRule("Age", "min:1")
 }
 
-var c18Strings = []string{"", "a", "héllo wörld", "a&b=c", "x;y", "1,2", "<tag>", "\"q\"", "tab\there", "日本", "a+b c", "%41", "line\nbreak",
+var c18Strings = []string{"", "a", "héllo wörld", "a&b=c", "x;y", "1,2", "<tag>", "\"q\"", "tab\there", "日本", "a+b c", "%41", "line\nbreak", " a ", "\tb\n", "true", "null",
 	// bodies longer than the usual peek / buffer sizes (512, 4096)
 	strings.Repeat("long text 0123456789 ", 30), strings.Repeat("0123456789abcdef", 300)}
 
 func c18MakeVal(r *Rng) c18Val {
 	v := c18Val{ID: r.Intn(2000) - 1000, Name: r.Pick(c18Strings), Ok: r.Bool(), Score: int64(r.Next() >> 20)}
+	if r.Chance(1, 6) { // the ends of the int64 range and the first integer a float64 cannot hold
+		v.Score = []int64{math.MinInt64, -1, 1<<53 + 1, math.MaxInt64}[r.Intn(4)]
+	}
 	for k := r.Intn(4); k > 0; k-- {
 		v.Tags = append(v.Tags, r.Pick(c18Strings)) // blank elements included
 	}
@@ -138,7 +142,7 @@ func c18Gen(r *Rng, tier string, i int) Sx {
 		} else {
 			toggles += "d"
 		}
-		return L(A("val"), B(enabled), B(r.Bool()), A(r.Pick([]string{"json", "xml", "form", "query"})), A("t"+toggles), A(r.Pick([]string{"plain", "plain", "samename", "custom", "config"})))
+		return L(A("val"), B(enabled), B(r.Bool()), A(r.Pick([]string{"json", "xml", "form", "query", "multipart"})), A("t"+toggles), A(r.Pick([]string{"plain", "plain", "samename", "custom", "config"})))
 	}
 }
 
@@ -397,6 +401,10 @@ func c18Exec(c Sx) (out Sx) {
 		case "form":
 			req = httptest.NewRequest("POST", "/x", strings.NewReader(vs.Encode()))
 			req.Header.Set("Content-Type", "application/x-www-form-urlencoded")
+		case "multipart":
+			ct, buf := c18Multipart(vs)
+			req = httptest.NewRequest("POST", "/x", buf)
+			req.Header.Set("Content-Type", ct)
 		default:
 			req = httptest.NewRequest("GET", "/x?"+vs.Encode(), nil)
 		}
